@@ -34,6 +34,10 @@ public:
   int _last_line;
   bool _c_style;
   std::string _comment;
+
+  // The line of a declaration that starts on the last line of this comment
+  // and has claimed it, or -1.
+  int _claimed_line = -1;
 };
 
 typedef std::list<CPPCommentBlock *> CPPComments;
